@@ -24,6 +24,9 @@ CFG = {
     "technique": "executable Gallina specification decoder (RFC 6386) + Rocq proofs of kernel refinements and finite complete sweeps; extraction-based differential execution against the Go decoder incl. an independent foreign-stream emitter",
     "notes": [
         "theorem C04_bool_roundtrip (full, no length bound, carries included): for every list of (bit, probability) pairs, the bytes of the Go BoolWriter model (range_/value/run/nbBits, flush with carry propagation through pending 0xff bytes, PutBit, Finish = 9-nbBits zero bits + forced flush), followed by any number of zero bytes, are decoded by the RFC 6386 decoder (Vp8Bool) to exactly those bits. Proof: Vp8BoolAbs (exact-integer interval coder; abs_roundtrip; the RFC 16-bit decoder refines it: rfc_refines_abs) + Vp8BoolEnc (the writer refines the abstract encoder: flush_rel incl. the carry cases, put_rel, finish_value; trailing zeros are irrelevant: rfc_bits_zeros). The writer model is tied to the code by the benc kernel cases (Go BoolWriter bytes vs model bytes on random / carry-forcing sequences, PutBits and PutSignedBits included).",
+        "ALPH clause: case family alph (harness/c04/alph.go): foreign raw and lossless ALPH chunks x filters 0..3 x sizes incl. width/height 1, pre-processing bits, invalid compression, truncated / trailing raw data: lossy.DecodeAlpha and webp.Decode of VP8X+ALPH+VP8 files vs Conform.ConformFile.alpha_decode (coordinator's ALPH model with the VP8L specification decoder); colour samples of such files vs Vp8Rgb.decode_rgb (specification decoder + fancy upsampler with buildNRGBA's row pairing + YUV->RGB).",
+        "filter-strength table: VerifLossyFilterStrengths vs model, complete sweep level 0..63 x sharpness 0..7 x delta extremes x segment configurations on every run (kernel cases fstr); foreign plans of class thr force final levels 1/14/15/16/39/40/41/63 with low-amplitude residuals.",
+        "cases are written with the known deviation classes LAST, because bin/check turns only the first 50 spec mismatches into violations.",
         "theorems C04_syntax_roundtrip_partial / _bytes_partial: emitter of the fixed first-partition header (colour, clamp, segment header, filter header, partition bits, quantiser header; PutBits / PutSignedBits encodings) -> Vp8Syntax.parse_fixed_hdr returns the emitted fields, over abstract (bit, prob) streams (sync) and composed with the boolean-coder round trip.",
         "S side = Vp8Spec.decode (RFC reading); I side = Vp8Spec.decode_go = the same decoder with three switches set to what the Go code does (go_quirks): absolute-mode default of the segment header on key frames, single clamp of the filter level, inner-edge filtering decided by the mb_skip_coeff flag alone. When one of these is repaired in /repo, flip the corresponding field of Vp8Spec.go_quirks (the I side then follows) and drop the KNOWN_FINDINGS lines of that class.",
         "foreign streams: harness/c04/foreign.go is an independent bool-encoder + syntax emitter (RFC 6386 sections 7, 9, 11, 13) driven by random plans: absolute/delta segment quantisers and filter levels, simple filter with deltas, every 16x16/4x4/chroma mode, all token categories incl. cat6 extremes, explicit zero runs to position 16, 1..8 partitions, skip on/off, probability updates, versions 0..3. Plain plans stay inside the region where RFC reference decoder and libwebp-derived decoders agree; the classes segnoupd / midclamp / zeromb switch one deviation on each and are keyed separately.",
@@ -32,7 +35,7 @@ CFG = {
         "GetSigned/fastSigned is exact except in the state range=255, which exists only before the first bool of a partition (theorem C04_bool_variants_agree, last two conjuncts).",
     ],
     "partial": [
-        "syntax round trip stops before the coefficient-probability updates and the skip probability (C04_syntax_roundtrip_*_partial); the full-header and macroblock-level emit/parse round trip is not proved. Not attempted in this wave: inline_coeffs_eq, row_filter_order_eq, single-macroblock no_drift step.",
+        "syntax round trip: proved for the whole first-partition header (C04_syntax_roundtrip, probability updates and skip probability included) and for the coefficient tokens of a block (C04_tokens_roundtrip, C04_decode_block_roundtrip); NOT proved for the per-macroblock header (segment id, skip flag, mode trees with contexts) and for the assembly of blocks into a macroblock / frame, so vp8_emit_decode for whole frames remains unproved. Not attempted: inline_coeffs_eq, row_filter_order_eq, single-macroblock no_drift step.",
         "not proved: vp8_emit_decode (emitter/decoder round trip over all syntaxes; the emitter lives in the Go harness, not in Coq), inline_coeffs_eq (getCoeffsInline with hoisted reader state = token-tree decoder) and row_filter_order_eq (row-by-row filtering = filter after full reconstruction): these are covered by differential execution of whole frames only. The ALPH clause (alpha filters, header) is handled under coq/theories/Alpha by the C07 builder.",
         "the specification keeps IDCT/WHT intermediates as exact integers (as libwebp's C code and the pure-Go kernels do) with 16-bit storage of dequantised coefficients and WHT outputs; RFC 6386's reference source narrows first-pass IDCT values to short - the two readings differ only for coefficient sets no encoder of 8-bit pictures produces.",
     ],
